@@ -26,7 +26,11 @@ EXTENDS Integers, Sequences, FiniteSets, TLC
 CONSTANTS Runs,            \* calibrations that may use the folder, e.g. {"A", "B"}
           MaxRows,         \* history sizes 0..MaxRows
           MaxSaves,        \* number of saves explored
-          AppendInPlace,   \* TRUE: pinned series-file logic;  FALSE: appended only onto a verified prefix of the same run, else rewritten
+          Shared,          \* runs whose history equals that of run "A" except for its first row (two runs may share rows without
+                           \* one being a prefix of the other)
+          AppendInPlace,   \* "always": pinned series-file logic (extend whatever the file holds from the row count on disk)
+                           \* "prefix": extend only when the stored rows are exactly a prefix of the rows being saved, else rewrite
+                           \* "lastrow": extend when the last stored row equals the row at the same index (an unsound shortcut)
           Crashes,         \* BOOLEAN: a save may be interrupted
           CrossCheck,      \* BOOLEAN: load verifies that all five files describe the same state (a sound repair; not the pinned code)
           SqlDeleteInTxn   \* TRUE: repaired SQLite save;  FALSE: pinned (DELETE committed by executescript)
@@ -44,8 +48,11 @@ vars == <<folder, pc, mem, prev, nsaves, sql, sqlpc, sqlprev, sqlfailed, at>>
 FileNames == {"params", "sched", "loss", "csv", "h5"}
 States == [run : Runs, rows : 0..MaxRows]
 Absent == [st |-> "absent", run |-> "-", rows |-> 0, cut |-> FALSE, tags |-> <<>>]
+(* identity of the i-th history row of a run *)
+RowId(r, i) == IF r \in Shared /\ i > 1 THEN <<"A", i>> ELSE <<r, i>>
+RowsOf(s) == [i \in 1..s.rows |-> RowId(s.run, i)]
 Full(f, s) == [st |-> "full", run |-> s.run, rows |-> s.rows, cut |-> FALSE,
-               tags |-> IF f = "h5" THEN [i \in 1..s.rows |-> s.run] ELSE <<>>]
+               tags |-> IF f = "h5" THEN RowsOf(s) ELSE <<>>]
 
 Init == /\ folder = [f \in FileNames |-> Absent]
         /\ pc = "idle" /\ mem = <<>> /\ prev = <<>> /\ nsaves = 0
@@ -74,13 +81,17 @@ Finish == /\ pc \in {"m_params", "m_sched", "m_loss", "m_csv"}
           /\ UNCHANGED <<mem, prev, nsaves, sql, sqlpc, sqlprev, sqlfailed, at>>
 
 (* the series file *)
+IsPrefixOf(a, b) == Len(a) <= Len(b) /\ \A i \in 1..Len(a) : a[i] = b[i]
+Extend(old, s) == [old EXCEPT !.tags = IF s.rows > Len(old.tags) THEN old.tags \o [i \in 1..(s.rows - Len(old.tags)) |-> RowId(s.run, Len(old.tags) + i)]
+                                       ELSE old.tags,                                     \* nothing is ever removed
+                              !.rows = IF s.rows > Len(old.tags) THEN s.rows ELSE Len(old.tags)]
 H5New(old, s) ==
   IF old.st # "full" THEN Full("h5", s)                                                    \* created from scratch
-  ELSE IF AppendInPlace
-         THEN [old EXCEPT !.tags = IF s.rows > Len(old.tags) THEN old.tags \o [i \in 1..(s.rows - Len(old.tags)) |-> s.run]
-                                   ELSE old.tags,                                         \* nothing is ever removed
-                          !.rows = IF s.rows > Len(old.tags) THEN s.rows ELSE Len(old.tags)]
-       ELSE Full("h5", s)                                                                  \* repaired: verified prefix or rewrite
+  ELSE CASE AppendInPlace = "always" -> Extend(old, s)
+         [] AppendInPlace = "prefix" -> IF IsPrefixOf(old.tags, RowsOf(s)) THEN Extend(old, s) ELSE Full("h5", s)
+         [] AppendInPlace = "lastrow" ->
+              IF Len(old.tags) <= s.rows /\ (Len(old.tags) = 0 \/ old.tags[Len(old.tags)] = RowId(s.run, Len(old.tags)))
+                THEN Extend(old, s) ELSE Full("h5", s)
 WriteH5 == /\ pc = "w_h5"
            /\ folder' = [folder EXCEPT !["h5"] = H5New(folder["h5"], mem[1])]
            /\ pc' = "done"
@@ -104,7 +115,7 @@ Crash == /\ Crashes
                                                              rows |-> k, cut |-> c, tags |-> <<>>]]
             \/ /\ pc = "w_h5"                                                               \* the dataset was resized but not filled
                /\ folder["h5"].st = "full" /\ mem[1].rows > Len(folder["h5"].tags)
-               /\ folder' = [folder EXCEPT !["h5"].tags = @ \o [i \in 1..(mem[1].rows - Len(@)) |-> "zero"], !["h5"].rows = mem[1].rows]
+               /\ folder' = [folder EXCEPT !["h5"].tags = @ \o [i \in 1..(mem[1].rows - Len(@)) |-> <<"zero", 0>>], !["h5"].rows = mem[1].rows]
             \/ /\ pc = "w_h5" /\ folder["h5"].st # "full"                                   \* creation interrupted
                /\ folder' = [folder EXCEPT !["h5"].st = "partial"]
          /\ pc' = "crashed" /\ at' = pc
@@ -118,7 +129,7 @@ Components == [params |-> <<folder["params"].run, folder["params"].rows>>,
                csv    |-> <<folder["csv"].run, folder["csv"].rows, folder["csv"].cut>>,
                h5     |-> folder["h5"].tags]
 Whole(s) == [params |-> <<s.run, s.rows>>, sched |-> <<s.run, s.rows>>, loss |-> <<s.run, s.rows>>,
-             csv |-> <<s.run, s.rows, FALSE>>, h5 |-> [i \in 1..s.rows |-> s.run]]
+             csv |-> <<s.run, s.rows, FALSE>>, h5 |-> RowsOf(s)]
 Agree == \E s \in States : Components = Whole(s)
 Error == [error |-> TRUE]           \* (a record, so that it can be compared with a loaded state)
 Load == IF \E f \in FileNames : Unreadable(f) THEN Error
